@@ -5,6 +5,9 @@
 tier="${1:-quick}"; shift
 cd /verif
 ids="$@"; [ -z "$ids" ] && ids=$(ls seeded | grep -v RESULTS)
+# evidence written while a seeded change is applied must never be committed: keep the old files
+evbak=$(mktemp -d); cp -a evidence/. "$evbak"/
+trap 'git -C /repo checkout -- . ; git -C /repo clean -fdq; cp -a "$evbak"/. /verif/evidence/; rm -rf "$evbak"' EXIT INT TERM
 for id in $ids; do
   prop=$(python3 -c "import json;print(json.load(open('/verif/seeded/$id/meta.json'))['property'])")
   also=""; [ -f seeded/$id/also ] && also=$(cat seeded/$id/also)
